@@ -174,8 +174,17 @@ CLAIMED["C19"] = dict(engine="yast",
          "'begins with'; the writer's two namespace-closing loops agree (one brace per scope operator). Does NOT decide the rest of the writer: balance of the namespace braces, one declaration per class, exactly its namespace (a string "
          "algorithm over run-time characters). One defect found and repaired (F16).",
     design_ref="DESIGN.md section 4, C19")
+CLAIMED["C06"] = dict(engine="yast",
+    technique="AST decision tables and merge rules at the sites where several candidates or several records of one thing meet (no positional tie-break)",
+    text="Does NOT decide the property itself (a 2-safety statement over permutations of run-time registration lists). Decides necessary "
+         "conditions: at every site where a registration position could leak into the outcome it does not - a best set of two or more installs the "
+         "ambiguity error in the dispatch cell and in next, never a candidate chosen by position; best() removes a member only because the "
+         "candidate beats that member and drops the candidate only because a member beats it, with the documented specificity tables; several "
+         "records of one class all contribute their bases, a group's concreteness is accumulated over all its classes, a definition is refused "
+         "only when it is itself already registered. Order-independence of best()'s fold over a non-transitive relation and consistent "
+         "renumberings (slots, groups) are not decided.",
+    design_ref="DESIGN.md section 4, C06")
 NA = {
- "C06": "2-safety property over permutations of run-time registration lists; the order-sensitive code (incremental elimination in best(), iteration-order driven slot and group numbering) has no shape-level rule that would not also fire on a correct rewrite - see DESIGN.md section 4, C06",
 }
 DEFAULT_NA = "check not built yet (see DESIGN.md section 4 for the planned clause)"
 
@@ -186,7 +195,7 @@ m = {"version": 1,
                "source_commits": [], "add_only": True},
      "engines": [
         {"name": "yast", "path": "engine/yast.cpp", "kind_free_text": "clang front-end plugin serialising instantiated, type-resolved ASTs, CFGs, static-storage variables with policy keys; Python rules lib/yv/astq.py + checks",
-         "serves_properties": ["C01", "C02", "C03", "C04", "C05", "C07", "C08", "C09", "C10", "C11", "C12", "C13", "C14", "C15", "C17", "C18", "C19"]},
+         "serves_properties": ["C01", "C02", "C03", "C04", "C05", "C06", "C07", "C08", "C09", "C10", "C11", "C12", "C13", "C14", "C15", "C17", "C18", "C19"]},
         {"name": "e3", "path": "lib/yv/e3.py", "kind_free_text": "generated compile-pass / compile-fail / static_assert witnesses decided by clang's type checker, diagnostics attributed per obligation",
          "serves_properties": ["C08", "C11", "C14", "C20"]},
         {"name": "yir", "path": "engine/yir.cpp", "kind_free_text": "LLVM-IR (post mem2reg) serialiser + Python rules lib/yv/{irq,eff,sym}.py: effect sets, symbolic summaries, path queries",
